@@ -165,15 +165,16 @@ theorem sol_truth_top (k : Nat) (isTrue : Bool) (c : Con) (hc : ConWf c) (extra 
       exact ⟨Or.inl hf, h⟩
     | ok ec =>
       simp only
-      have hgs := getSolver_spec s h.base.core
+      have hgsT := getSolverG_spec H.zid s h.base.core h.base.dinv.consR h.base.areg
       rcases hg : getSolver s with ⟨res, s1⟩
-      rw [hg] at hgs
+      rw [hg] at hgsT
       cases res with
-      | error err => exact absurd hgs id
+      | error err => exact absurd hgsT id
       | ok r =>
+        have hgs := hgsT.toGotSolver
         simp only [M.get_apply, M.modify_apply, pure, M.pure]
         have hst : ObjStep r s1 { s1 with tick := s1.tick + 1 } := ⟨rfl, fun _ _ => rfl, rfl, rfl⟩
-        obtain ⟨h2, _⟩ := si_after_query h hgs hst rfl (hookP_start h hgs)
+        obtain ⟨h2, _⟩ := si_after_query h hgsT hst rfl (hookP_start h hgs)
         refine ⟨fun hb a _ => ?_, h2⟩
         cases isTrue
         · exact H.cheap.2.2 c _ hb a
